@@ -85,10 +85,23 @@ pub fn drive_from_commandline(
 	}
 	else
 	{
+		// The command line was rejected as a whole, but a
+		// well-formed `--color` option on it still applies
+		let use_colors = args
+			.iter()
+			.rev()
+			.find_map(|arg| match arg.as_str()
+			{
+				"--color=on" => Some(true),
+				"--color=off" => Some(false),
+				_ => None,
+			})
+			.unwrap_or(true);
+
 		report.print_all(
 			&mut std::io::stderr(),
 			fileserver,
-			true);
+			use_colors);
 
 		Err(())
 	}
